@@ -48,8 +48,8 @@ def leafText (c : Cfg) : BLeaf → Option Bytes
 def textScalarVal (t : Ty) (s : Bytes) : Res String :=
   let str : Prim := .str (decode1252 s)
   match t with
-  | .i64 | .i32 => match Scalar.toI64 s with | .ok n => visitPrim t (.i64 n) | .error _ => visitPrim t str
-  | .u64 | .u32 => match Scalar.toU64 s with | .ok n => visitPrim t (.u64 n) | .error _ => visitPrim t str
+  | .i64 | .i32 | .i16 | .i8 => match Scalar.toI64 s with | .ok n => visitPrim t (.i64 n) | .error _ => visitPrim t str
+  | .u64 | .u32 | .u16 | .u8 => match Scalar.toU64 s with | .ok n => visitPrim t (.u64 n) | .error _ => visitPrim t str
   | .f64 | .f32 => match Scalar.toF64 s with | .ok b => visitPrim t (.f64 b) | .error _ => visitPrim t str
   | .bool => match Scalar.toBool s with | .ok b => visitPrim t (.bool b) | .error _ => visitPrim t str
   | .enum vs => enumVal vs str
